@@ -229,11 +229,21 @@ func WriteEvidence(env *Env, level string, cov map[string]interface{}, assumptio
 		WallS:      float64(time.Since(env.Start).Milliseconds()) / 1000.0,
 		Violations: violations,
 	}
+	// the schema wants at least one concrete sample: an engine that sampled nothing (every case
+	// ended early) still says so explicitly
+	if l, ok := cov["samples"].([]interface{}); ok && len(l) == 0 {
+		cov["samples"] = []interface{}{map[string]interface{}{"note": "no case reached the point at which samples are recorded in this run"}}
+	}
 	b, err := json.MarshalIndent(ev, "", " ")
 	if err != nil {
 		Broken("evidence: %v", err)
 	}
 	dir := filepath.Join(env.VerifDir, "evidence")
+	if filepath.Clean(env.RepoDir) != "/repo" {
+		// a trial against another tree (seeded change, behaviour-preserving change): the evidence
+		// directory describes /repo itself and is left alone
+		dir = filepath.Join(env.VerifDir, "evidence-trials")
+	}
 	_ = os.MkdirAll(dir, 0o755)
 	if err := ioutil.WriteFile(filepath.Join(dir, env.Prop+".json"), append(b, '\n'), 0o644); err != nil {
 		Broken("evidence: %v", err)
